@@ -27,6 +27,9 @@ STRENGTHENED = {
     "C15_7": "init() again while the old connect is still in flight", "C15_8": "closing the transport takes 50 ms", "C16_8": "eleventh request through every public API call",
     "C17_7": "free to/from addresses on unknown frames",
     "C09_9": "second init() while the slow first connect is still pending",
+    "C01_10": "a write stalled for up to 25 s without a fault", "C02_10": "writes failing together across the wrap of the packet counter",
+    "C04_10": "AT5 mode change with a reported set-point outside the other mode's range", "C06_10": "damaged frame followed by the start of another in the same segment (also: SymBytes.__delitem__, connection cap against reset storms)",
+    "C07_10": "a console that takes up to 20 s to accept", "C09_10": "AT5 zone numbering with a gap", "C14_10": "a frame left buffered on the abandoned connection while a subscriber is slow",
     "C01_9": "three held messages and a send while their flush is held up in drain()", "C08_9": "ten commands held for the dead link when a heartbeat falls due",
     "C15_9": "close() while two connection attempts are pending after a failed first write", "C16_9": "all eleven sends inside a slow connection attempt", "C12_9": "subscribers given as bound methods",
     "C17_9": "ability records longer than known through the socket (also caught by C05 as it stood)", "C18_9": "unicast search answered from another source address", "C18_7": "second search() on the same discoverer", "C19_8": "unsolicited report interleaved in the handshake of both consoles", "C15_6": "shutdown racing a handshake answer at loop-turn granularity (also exposed KF-C15-2)",
